@@ -70,20 +70,14 @@ Proof. intros H. unfold range. apply in_map_iff. exists (Z.to_nat x). split; [li
 
 (* the values for which decoding the payload gives the message back: everything the constructor accepts, except SMPTE hours
    above 31 (they spill into the frame-rate bits) and UnknownMetaMessage objects carrying a known type byte or non-bytes *)
-Definition meta_rt (x : meta) : bool :=
-  meta_ok x &&
-  match x with
-  | MSmpte _ h _ _ _ _ => h <=? 31
-  | MUnknown tb d => negb (known_type tb) && in_rng 0 255 tb && forallb byte8 d
-  | _ => true
-  end.
+Definition meta_rt := meta_rt_b.
 
 Ltac bsplit := repeat match goal with H : _ && _ = true |- _ => apply andb_prop in H as [? ?] end.
 
 Theorem payload_roundtrip cs x p : codec_ok cs -> meta_rt x = true -> meta_payload cs x = Ok p ->
   meta_decode cs (type_byte x) p = Ok x /\ bytes p.
 Proof.
-  intros [Hcs _] Hrt Hp. unfold meta_rt in Hrt. apply andb_prop in Hrt as [Hok Hx].
+  intros [Hcs _] Hrt Hp. unfold meta_rt, meta_rt_b in Hrt. apply andb_prop in Hrt as [Hok Hx].
   destruct x; cbn [meta_payload type_byte meta_ok] in *; unfold in_rng in *.
   - (* sequence_number *)
     injection Hp as <-. bsplit. unfold meta_decode. change (0 =? 0) with true. cbv iota. cbn [idx nth_error bind].
